@@ -376,6 +376,78 @@ Fixpoint history_ck (sf : bool) (c : scache) (g : C17.pattern) (calls : list (li
   | kw :: r => let '(u, c1) := generate_ck sf c g kw in u :: history_ck sf c1 g r
   end.
 
+(* ================================================================== vocabulary of the translator (harness/c06/translate.py) *)
+(* calls that may raise or touch traversal._segment_cache: state (the cache) and error *)
+Definition M (A : Type) : Type := scache -> C17.res A * scache.
+Definition mret {A} (a : A) : M A := fun c => (C17.Ok a, c).
+Definition mlift {A} (r : C17.res A) : M A := fun c => (r, c).
+Definition mbind {A B} (m : M A) (f : A -> M B) : M B :=
+  fun c => match m c with (C17.Ok a, c1) => f a c1 | (C17.Err e, c1) => (C17.Err e, c1) end.
+Fixpoint mmapM {A B} (f : A -> M B) (l : list A) : M (list B) :=
+  match l with
+  | [] => mret []
+  | x :: r => mbind (f x) (fun y => mbind (mmapM f r) (fun ys => mret (y :: ys)))
+  end.
+(* for k, v in d.items(): body -- [s] is the state the body rebinds, [continue_] the next iteration *)
+Fixpoint mfold {S A} (body : text * C17.kwval -> S -> (S -> M A) -> M A) (l : list (text * C17.kwval)) (s : S)
+         (k_end : S -> M A) : M A :=
+  match l with
+  | [] => k_end s
+  | x :: t => body x s (fun s' => mfold body t s' k_end)
+  end.
+
+Definition kv_is_bytes (v : C17.kwval) : bool := match v with C17.KScalar (C17.PBytes _) => true | _ => false end.
+Definition kv_is_str (v : C17.kwval) : bool := match v with C17.KScalar (C17.PStr _) => true | _ => false end.
+Definition kv_is_seq (v : C17.kwval) : bool := match v with C17.KSeq _ _ => true | _ => false end.     (* is_nonstr_iter *)
+Definition kv_items (v : C17.kwval) : list C17.pval := match v with C17.KSeq l _ => l | _ => [] end.
+(* v.decode('utf-8'): only bytes have it *)
+Definition kv_decode_utf8 (v : C17.kwval) : C17.res C17.kwval :=
+  match v with
+  | C17.KScalar (C17.PBytes b) => C17.rbind (C17.utf8_dec b) (fun t => C17.Ok (C17.KScalar (C17.PStr t)))
+  | _ => C17.Err C17.EVal
+  end.
+(* str(v); str of bytes is their repr, which the model does not print: an error value *)
+Definition kv_str (v : C17.kwval) : C17.res C17.kwval :=
+  match v with
+  | C17.KScalar (C17.PStr _) => C17.Ok v
+  | C17.KScalar (C17.PInt z) => C17.Ok (C17.KScalar (C17.PStr (C17.show_Z z)))
+  | C17.KScalar (C17.PNum _ s) => C17.Ok (C17.KScalar (C17.PStr s))
+  | C17.KScalar (C17.PBytes _) => C17.Err C17.EVal
+  | C17.KSeq _ shown => C17.Ok (C17.KScalar (C17.PStr shown))
+  end.
+(* quote_path_segment(x, safe=PATH_SAFE) through the cache; a list / tuple is stringified by quote_path_segment *)
+Definition q_pv (sf : bool) (x : C17.pval) : M text := fun c => qv_ck sf c x.
+Definition q_kw (sf : bool) (v : C17.kwval) : M text :=
+  match v with C17.KScalar x => q_pv sf x | C17.KSeq _ shown => q_pv sf (C17.PStr shown) end.
+(* k == remainder (remainder is None without a '*') *)
+Definition star_eq (star : option text) (k : text) : bool :=
+  match star with Some r => text_eqb k r | None => false end.
+(* newdict[k] = v for a key not stored before (the keys of the iterated dict are distinct) *)
+Definition dstore (d : list (text * text)) (k v : text) : list (text * text) := d ++ [(k, v)].
+(* gen % newdict *)
+Definition format_template (tpl : list C17.tpart) (d : list (text * text)) : C17.res text :=
+  C17.rbind (C17.mapM (C17.format_part d) tpl) (fun parts => C17.Ok (concat parts)).
+
+(* reference model of the generator closure: what [generate_ck] does once the template is there *)
+Definition star_pat (star : option text) : C17.pattern := C17.mkPat [] [] star.
+Definition generator_model (sf : bool) (star : option text) (tpl : list C17.tpart) (kw : list (text * C17.kwval)) : M text :=
+  fun c => match newdict_ck sf c (star_pat star) kw with
+           | (C17.Ok d, c1) => (format_template tpl d, c1)
+           | (C17.Err e, c1) => (C17.Err e, c1)
+           end.
+
+(* a history of generations answered by a generator function [G] (the reference model or the translated source) *)
+Fixpoint history_g (G : option text -> list C17.tpart -> list (text * C17.kwval) -> M text) (c : scache) (g : C17.pattern)
+         (calls : list (list (text * C17.kwval))) : list (C17.res text) :=
+  match calls with
+  | [] => []
+  | kw :: r =>
+      match C17.gen_template g with
+      | C17.Err e => C17.Err e :: history_g G c g r
+      | C17.Ok tpl => let '(u, c1) := G (C17.p_star g) tpl kw c in u :: history_g G c1 g r
+      end
+  end.
+
 Definition empty_env : C17.env := C17.mkEnv [104; 116; 116; 112] None [115] [56; 48] [].
 Definition no_overrides : C17.overrides := C17.mkOv None None None None None None.
 
@@ -467,29 +539,198 @@ Definition get_rstep (v : val) : option rstep :=
   | _ => None
   end.
 
+(* ================================================================== placeholders outside C01's sublanguage *)
+(* {name:regex} accepts any `re` text (groups, alternation, lazy quantifiers ...).  For those C01's
+   model of the compiled matcher declines; the specification still speaks.  The pattern is read with
+   every regex dropped ([parse_open]: same pieces, same names, the regex texts kept aside in placeholder
+   order); whether a text lies in a placeholder's language is an oracle input ([otable]: regex text,
+   candidate, re.fullmatch?), and the match dictionary is promised when the supplied values are the
+   ONLY way of cutting the decoded path along the pattern ([all_decs_open] lists every way). *)
+Definition otable := list (text * text * bool).
+Fixpoint ot_find (t : otable) (r v : text) : option bool :=
+  match t with
+  | [] => None
+  | (r', v', b) :: t' => if text_eqb r r' && text_eqb v v' then Some b else ot_find t' r v
+  end.
+(* for the alternatives that have to be excluded an unknown answer counts as "may match"; for the
+   supplied values themselves as "does not" *)
+Definition lang_may (O : C01.oracle) (t : otable) (reg : option text) (v : text) : bool :=
+  match reg with
+  | None => C01.hole_ok O C01.spec_default_hole v
+  | Some r => match ot_find t r v with Some b => b | None => true end
+  end.
+Definition lang_must (O : C01.oracle) (t : otable) (reg : option text) (v : text) : bool :=
+  match reg with
+  | None => C01.hole_ok O C01.spec_default_hole v
+  | Some r => match ot_find t r v with Some b => b | None => false end
+  end.
+
+Definition strip_reg (p : C01.piece) : C01.piece * list (option text) :=
+  match p with
+  | C01.PLit _ => (p, [])
+  | C01.PHole body => let '(name, reg) := C01.split_colon body in (C01.PHole name, [reg])
+  end.
+
+(* _compile_route's reading of the pattern text (the steps of C01.parse_core), regexes kept aside *)
+Definition parse_open (O : C01.oracle) (src : text) : C01.res (C01.pat * list (option text)) :=
+  let r1 := if C01.has_old src && negb (C01.has_brace src) then C01.old_sub O src false else src in
+  let r2 := if startswith [47] r1 then r1 else 47 :: r1 in
+  let '(r3, rem) := match C01.rsplit_star r2 with
+                    | Some (a, b) => if C01.word_then_end O b then (a, b) else (r2, [])
+                    | None => (r2, [])
+                    end in
+  let ps := map strip_reg (C01.split_route r3 0 []) in
+  match C01.seq_items (map (fun x => C01.piece_item (Some C01.spec_default_hole) (fst x)) ps) with
+  | C01.Ok its =>
+      let regs := flat_map snd ps in
+      match rem with
+      | [] => let p := C01.mkPat its None in
+              if C01.has_dup (C01.pat_names p) then C01.CompileError else C01.Ok (p, regs)
+      | _ => match C01.name_check rem with
+             | C01.Ok _ => let p := C01.mkPat its (Some rem) in
+                           if C01.has_dup (C01.pat_names p) then C01.CompileError else C01.Ok (p, regs)
+             | C01.CompileError => C01.CompileError
+             | C01.Unsupported => C01.Unsupported
+             | C01.FactsDrift => C01.FactsDrift
+             end
+      end
+  | C01.CompileError => C01.CompileError
+  | C01.Unsupported => C01.Unsupported
+  | C01.FactsDrift => C01.FactsDrift
+  end.
+
+(* every way of cutting the whole text along the pattern, the language of the i-th placeholder given
+   by the i-th element of [langs] (longest candidate first, as C01.all_decs) *)
+Fixpoint all_decs_open (langs : list (text -> bool)) (st : option text) (its : list C01.item) (s : text)
+  : list (list text) :=
+  match its with
+  | [] => C01.all_decs_end st s
+  | C01.Lit l :: its' => match strip_prefix l s with Some r => all_decs_open langs st its' r | None => [] end
+  | C01.Hole _ _ :: its' =>
+      match langs with
+      | [] => []
+      | L :: langs' =>
+          flat_map (fun k => let v := firstn k s in
+                             if L v then map (cons v) (all_decs_open langs' st its' (skipn k s)) else [])
+                   (C01.lens_desc (List.length s))
+      end
+  end.
+
+(* one capture per placeholder, each in its placeholder's language; one more for the remainder *)
+Fixpoint caps_in (langs : list (text -> bool)) (st : option text) (its : list C01.item) (caps : list text) : bool :=
+  match its with
+  | [] => match st, caps with None, [] => true | Some _, [_] => true | _, _ => false end
+  | C01.Lit _ :: r => caps_in langs st r caps
+  | C01.Hole _ _ :: r => match langs, caps with
+                         | L :: langs', v :: c => L v && caps_in langs' st r c
+                         | _, _ => false
+                         end
+  end.
+
+Definition caps_eqb (a b : list text) : bool :=
+  (List.length a =? List.length b)%nat && forallb (fun xy : text * text => text_eqb (fst xy) (snd xy)) (combine a b).
+
+Definition only_way (langs : list (text -> bool)) (st : option text) (its : list C01.item) (caps : list text) : bool :=
+  match all_decs_open langs st its (C01.render its caps) with
+  | [c] => caps_eqb c caps
+  | _ => false
+  end.
+
+Definition open_ok (O : C01.oracle) (d : text * text) : bool :=
+  match parse_open O (snd d) with C01.Ok _ => true | _ => false end.
+
+Definition spec_route_open (O : C01.oracle) (tbl : otable) (ds : list (text * text)) (target : text) (e : C17.env)
+           (els : list C17.pval) (o : C17.overrides) (kw : list (text * C17.kwval)) : spec_out :=
+  if negb (forallb (open_ok O) ds) then SNothing else
+  if negb (forallb valid_scalar (C17.e_script e) && wf_query (C17.o_query o) && wf_anchor (C17.o_anchor o)) then SNothing else
+  match find_src target ds with
+  | None => SKeyError
+  | Some src =>
+      match parse_open O src with
+      | C01.Ok (p, regs) =>
+          if negb (forallb valid_scalar src && wf_kw (C01.star p) kw) then SNothing else
+          match C17.spec_elements els with
+          | None => SNothing
+          | Some ets =>
+              match kw_caps p kw with
+              | None => SKeyError
+              | Some caps =>
+                  let body := C01.render (C01.items p) caps in
+                  let path := body ++ elements_suffix body ets in
+                  let own :=
+                    match ets with
+                    | [] => if caps_in (map (lang_must O tbl) regs) (C01.star p) (C01.items p) caps
+                               && only_way (map (lang_may O tbl) regs) (C01.star p) (C01.items p) caps
+                            then spec_dict p kw else None
+                    | _ => None
+                    end in
+                  SRoute path own C01.SNothing
+              end
+          end
+      | _ => SNothing
+      end
+  end.
+
+Definition get_oentry (v : val) : option (text * text * bool) :=
+  match v with VL [VT r; VT t; b] => olet b := get_bool b in Some (r, t, b) | _ => None end.
+
+Definition is_nothing (s : spec_out) : bool := match s with SNothing => true | _ => false end.
+
 (* case   = [[wordchars; digitchars]; [[name; pattern] ...]; target; env; elements; overrides; kw]
             (env / overrides / elements / kw in C17's wire format)
    answer = [[statuses; route_url; route_path; way back of the url form]; spec] *)
-Definition run_C06 (v : val) : val :=
+Definition run_plain (o ds : val) (target : text) (e els ov kw tbl : val) : option val :=
+  olet orc := C01.get_oracle o in
+  olet ds := get_list_of get_decl2 ds in
+  olet e := C17.get_env e in olet els := C17.get_pvals els in
+  olet ov := C17.get_ov ov in olet kw := C17.get_kw kw in
+  olet tbl := get_list_of get_oentry tbl in
+  let '(m, sts) := C01.connect_all orc C01.empty_mapper 0 (map c01_decl ds) in
+  let sts := if gen_sources_ok then sts else map (fun _ => C01.FactsDrift) sts in
+  let rs := gen_routes orc ds in
+  let u := C17.route_url [] e rs target els ov kw in
+  let p := C17.route_path [] e rs target els ov kw in
+  let tp := match find_src target ds with
+            | Some src => match parse orc src with C01.Ok p => Some p | _ => None end
+            | None => None
+            end in
+  let sp := spec_route orc ds target e els ov kw in
+  (* patterns with a placeholder outside the modelled sublanguage: the open specification speaks *)
+  let sp := if is_nothing sp then spec_route_open orc tbl ds target e els ov kw else sp in
+  Some (VL [VL [VL (map C01.put_status sts); C17.put_res u; C17.put_res p;
+                route_back orc m tp (C17.e_script e) u];
+            put_spec_out sp]).
+
+(* history of Route.generate calls in one process: [[status; [[path; own match] ...]]; [spec per call]] *)
+Definition run_hist (G : bool -> option text -> list C17.tpart -> list (text * C17.kwval) -> M text) (o d calls : val)
+  : option val :=
+  olet orc := C01.get_oracle o in
+  olet d := get_decl2 d in
+  olet calls := get_list_of C17.get_kw calls in
+  (* the specification does not depend on the facts guard: a drifting tree is still judged *)
+  let specs := VL (map (fun kw => put_spec_out (spec_route orc [d] (fst d) empty_env [] no_overrides kw)) calls) in
+  match parse orc (snd d) with
+  | C01.Ok p =>
+      let us := history_g (G segment_key_stringified) [] (to_pattern p) calls in
+      Some (VL [VL [VI 0; VL (map (fun u : C17.res text =>
+                                     VL [C17.put_res u;
+                                         match u with
+                                         | C17.Ok t => vopt C01.put_dict (match_back orc p (unquote t))
+                                         | C17.Err _ => VL []
+                                         end]) us)];
+                specs])
+  | C01.CompileError => Some (VL [VL [VI 1; VL []]; specs])
+  | C01.Unsupported => Some (VL [VL [VI 2; VL []]; VL []])
+  | C01.FactsDrift => Some (VL [VL [VI 3; VL []]; specs])
+  end.
+
+(* [G]: the generator closure that answers the history stream -- the reference model ([run_C06]) or the program
+   translated from the source (Extract/C06.v runs [run_C06_g gen_generator]; equal by Proofs/C06_gen.v) *)
+Definition run_C06_g (G : bool -> option text -> list C17.tpart -> list (text * C17.kwval) -> M text) (v : val) : val :=
   ret_or_bad (
     match v with
-    | VL [o; ds; VT target; e; els; ov; kw] =>
-        olet orc := C01.get_oracle o in
-        olet ds := get_list_of get_decl2 ds in
-        olet e := C17.get_env e in olet els := C17.get_pvals els in
-        olet ov := C17.get_ov ov in olet kw := C17.get_kw kw in
-        let '(m, sts) := C01.connect_all orc C01.empty_mapper 0 (map c01_decl ds) in
-        let sts := if gen_sources_ok then sts else map (fun _ => C01.FactsDrift) sts in
-        let rs := gen_routes orc ds in
-        let u := C17.route_url [] e rs target els ov kw in
-        let p := C17.route_path [] e rs target els ov kw in
-        let tp := match find_src target ds with
-                  | Some src => match parse orc src with C01.Ok p => Some p | _ => None end
-                  | None => None
-                  end in
-        Some (VL [VL [VL (map C01.put_status sts); C17.put_res u; C17.put_res p;
-                      route_back orc m tp (C17.e_script e) u];
-                  put_spec_out (spec_route orc ds target e els ov kw)])
+    | VL [o; ds; VT target; e; els; ov; kw] => run_plain o ds target e els ov kw (VL [])
+    | VL [o; ds; VT target; e; els; ov; kw; tbl] => run_plain o ds target e els ov kw tbl
     | VL [VI 2%Z; o; ds; VT target; e; VT pinfo; steps] =>
         (* history on one request object: [[statuses; [[route_url; route_path; way back] per generation step]]; [spec per step]] *)
         olet orc := C01.get_oracle o in
@@ -513,26 +754,8 @@ Definition run_C06 (v : val) : val :=
                              | RGen els ov kw => put_spec_out (spec_route orc ds target (env_with e (fst x)) els ov kw)
                              | _ => VL []
                              end) (scripts_at (C17.e_script e) pinfo steps))])
-    | VL [VI 1%Z; o; d; calls] =>
-        (* history of Route.generate calls in one process: [[status; [[path; own match] ...]]; [spec per call]] *)
-        olet orc := C01.get_oracle o in
-        olet d := get_decl2 d in
-        olet calls := get_list_of C17.get_kw calls in
-        (* the specification does not depend on the facts guard: a drifting tree is still judged *)
-        let specs := VL (map (fun kw => put_spec_out (spec_route orc [d] (fst d) empty_env [] no_overrides kw)) calls) in
-        match parse orc (snd d) with
-        | C01.Ok p =>
-            let us := history_ck segment_key_stringified [] (to_pattern p) calls in
-            Some (VL [VL [VI 0; VL (map (fun u : C17.res text =>
-                                           VL [C17.put_res u;
-                                               match u with
-                                               | C17.Ok t => vopt C01.put_dict (match_back orc p (unquote t))
-                                               | C17.Err _ => VL []
-                                               end]) us)];
-                      specs])
-        | C01.CompileError => Some (VL [VL [VI 1; VL []]; specs])
-        | C01.Unsupported => Some (VL [VL [VI 2; VL []]; VL []])
-        | C01.FactsDrift => Some (VL [VL [VI 3; VL []]; specs])
-        end
+    | VL [VI 1%Z; o; d; calls] => run_hist G o d calls
     | _ => None
     end).
+
+Definition run_C06 : val -> val := run_C06_g generator_model.
